@@ -162,7 +162,7 @@ CHECKS["C13"] = dict(
     level="model_checking",
     text=("TLC model-checks spec/N2KClient.tla - the client at the granularity of its suspension points (connect with lock, back-off, "
           "adoption of the new link, cancellation of the old receive task, status callbacks that may suspend per state; receive loop; "
-          "consumer; close; a failing send; the gateway accepting, refusing, feeding, ending the stream; timers firing only when no "
+          "consumer; close; a failing send; the gateway accepting, refusing, feeding, ending the stream; timers not yet due firing only when no "
           "task is ready) - composed with the monitor N2KClientMon that states the property over boundary events; for three callback "
           "regimes no clause ever trips, at most one receive path reads, and a quiescent unclosed client is connected and reading "
           "(NeverStuck; this found a genuine stuck-DISCONNECTED race, since repaired). The four real clients are then run on the "
@@ -170,7 +170,10 @@ CHECKS["C13"] = dict(
           "or later, Sorry,Limited) injected at every loop step of the session and inside suspending callbacks, for gateways refusing 0 "
           "or 3 attempts; every event log is validated by TLC against the same monitor: DISCONNECTED before the next attempt, delays "
           "positive, non-decreasing and capped, reads only on the current link, CONNECTED plus a delivered probe frame once the gateway "
-          "has accepted for 30 s, heartbeat alive, no spinning read loop."),
+          "has accepted for 30 s and every frame fed on the healthy current link is delivered, heartbeat alive, no spinning read loop. "
+          "The TCP event logs (timestamps, link numbers, feeds) are in addition replayed through the model itself (Trace_ClientModel: hidden "
+          "program counters, wake-up times and lock inferred by TLC); a log that is no behaviour of N2KClient is reported as DRIFT, "
+          "which says the model no longer describes the code (not a verdict on the property)."),
     note=("Trusted: TLC; the virtual-time loop (Python 3.12 asyncio internals) with real StreamReader and fake writer; liveness is "
           "checked as bounded liveness at the end of each session and as NeverStuck on the model (bounded attempts)."),
     design="5/C13",
@@ -185,8 +188,9 @@ CHECKS["C14"] = dict(
           "task left), ClosedFinal and AllShut. The four real clients run on the virtual-time loop with close() issued at every loop "
           "step and at fine-grained times of four session shapes (accept at once, refuse first, open pending 2 s, refuse then "
           "pending), followed by connect() and send(), with status callbacks that succeed, raise, suspend always or only on "
-          "CONNECTED; fault sessions with raising / suspending callbacks cover the notification clauses; every event log is "
-          "validated by TLC against the monitor."),
+          "CONNECTED; fault sessions with raising / suspending callbacks cover the notification clauses, and sessions in which a "
+          "failing send triggers the reconnect during which close() arrives; every event log is validated by TLC against the monitor, "
+          "and the accept-shape logs are replayed through the model itself (Trace_ClientModel; DRIFT when a log is no behaviour of it)."),
     note="Trusted: as C13. 'Tasks pending' is observed 40 virtual seconds after the start of the session (beyond the retry cap).",
     design="5/C14",
     technique="TLA+ model N2KClient + property monitor model-checked by TLC; event logs of real clients with close() at every loop step validated by TLC",
